@@ -108,7 +108,7 @@ class _LocalDatePatternParser(_IPatternParser[LocalDate]):
     __character_handlers: Final[dict[str, Callable[[_PatternCursor, _SteppedPatternBuilder[LocalDate]], None]]] = {
         "%": _SteppedPatternBuilder._handle_percent,
         "'": _SteppedPatternBuilder._handle_quote,
-        '"': lambda _, __: exec("raise NotImplementedError"),
+        '"': _SteppedPatternBuilder._handle_quote,
         "\\": _SteppedPatternBuilder._handle_backslash,
         "/": handle_forward_slash,
         "y": _DatePatternHelper._create_year_of_era_handler(year_of_era_getter, year_of_era_setter, LocalDate),
